@@ -123,6 +123,10 @@ def _val(draw, var, cls, depth, model, names, miss):
                 return ["const", draw(st.sampled_from(["1", "2.5", "'s'"]))]
             return outer_arg()
 
+        if k == 0 and draw(st.integers(0, 3)) == 0:
+            # a lambda that is called where it is written (what a helper function that could not be substituted looks like; the
+            # keyword-only parameter keeps it in place): call sites in its body are call sites, its parameter has the class of the argument
+            return ["called", v2, ["first", src], inner]
         if k == 0:
             return ["count", ["op", "Select", src, v2, inner]]
         if k == 1:
@@ -393,6 +397,8 @@ def render(ir, ns, mode, consts):
         return f"{_pr(R(ir[1]))}.First()"
     if k == "count":
         return f"{_pr(R(ir[1]))}.Count()"
+    if k == "called":
+        return f"(lambda {ir[1]}, *, z_=0: {R(ir[3])})({R(ir[2])})"
     if k == "cond":
         return f"({R(ir[2])} if {R(ir[1])} > 0 else {R(ir[3])})"
     if k == "bin":
